@@ -230,7 +230,14 @@ def run_ob(ob, tier, workdir):
         # adaptive unwinding: start low; every loop whose unwinding assertion fails gets a larger bound, up to ob.unwind.
         # (paths beyond a failed unwinding assertion are cut, so early rounds are cheap; the final round has none failing)
         U0 = min(3, ob.unwind)
-        for rnd in range(14):
+        # loops of specification/harness functions have constant bounds: give them the maximum at once
+        rcl, outl, _ = sh(['cbmc', binp, '--show-loops'], 120, log, cwd=d)
+        extracted = set(unit.em.func_text) | set(unit.em.stub_protos)
+        for mm in re.finditer(r'^Loop ([^\s:]+)\.(\d+):', outl, re.M):
+            fn = mm.group(1)
+            if fn not in extracted and not re.match(r'^(vec_|set_|vit_|rvit_|sit_|rsit_|vstd_|arr_|pair_|__CPROVER)', fn):
+                uset.setdefault('%s.%s' % (fn, mm.group(2)), ob.unwind)
+        for rnd in range(20):
             cb = cb0 + ['--unwind', str(U0), '--unwinding-assertions'] + (['--unwindset', ','.join('%s:%d' % kv for kv in sorted(uset.items()))] if uset else [])
             rc, out, d1 = sh(cb, to, log, cwd=d, mem_gb=memgb); dt += d1
             bad = [m.group(1) for m in re.finditer(r'^\[([^\]]+\.unwind\.\d+)\] .*unwinding assertion loop \d+: FAILURE', out, re.M)]
